@@ -351,7 +351,7 @@ def run(chk: Check) -> None:
     from .common import machine_findings
 
     chk.rule("U6", "the protocol hands the upload handler the first `size` buffered bytes (= C07.S2) and invokes it at most once per connection over every activation sequence (machine)")
-    machine_findings(chk, "U6", {"double-dispatch", "double-consult"}, "at most one upload-handler invocation", only=lambda v: v.extra == "upload" or (v.kind == "double-consult" and "titan" in v.chain.lower()))
+    machine_findings(chk, "U6", {"double-dispatch", "double-consult", "dispatch-after-response"}, "at most one upload-handler invocation, never after the connection was answered", only=lambda v: v.extra == "upload" or (v.kind == "double-consult" and "titan" in v.chain.lower()))
     before, nob = len(chk.findings), len(chk.obligations)
     rule_s2(chk)
     for f in chk.findings[before:]:
